@@ -55,3 +55,26 @@ META["C09"] = {
             "progress measure, non-modification of lookup through a fingerprint, returned slots through the ground-closure oracle. Held on the probes explored.",
     "note": "Trusted: the construction argument for 'represented' probes and the oracle for slot sets; absent probes are only checked for lookup/add agreement.",
 }
+
+META["C16"] = {
+    "technique": "differential monitor: derived Language methods vs an independent scoping model, exhaustive over a 3-name alphabet plus random nodes",
+    "design_ref": "DESIGN.md §4 C16",
+    "text": "Every derived method that the e-graph relies on (weak_shape, slots, occurrence lists, to_syntax/from_syntax, apply_slotmap) is compared on generated node values of four "
+            "languages with an independent model of scoping; canonicity is checked globally (shape <-> model-key tables over all nodes of a run). The harness builds against the in-tree "
+            "derive crate, so edits to the macro are monitored. Held on the nodes explored.",
+    "note": "Trusted: the scoping model; children carry at most four distinct argument slots.",
+}
+META["C17"] = {
+    "technique": "online trace monitor with a recorder of all slots/names seen, over generated interleavings; behavioural hygiene lane by renaming metamorphism",
+    "design_ref": "DESIGN.md §4 C17",
+    "text": "A recorder observes every slot the user obtains in one thread and rejects a fresh slot that was obtainable before, a name that denotes two slots, two names for one slot, "
+            "or a failed print/parse round trip, across hostile names at the boundaries of the encoding. Held on the interleavings explored.",
+    "note": "Trusted: the recorder's bookkeeping; the fresh counter cannot be driven to exhaustion (2^29 calls) in a test.",
+}
+META["C18"] = {
+    "technique": "round-trip oracle on generated values + mutation-based hostile input monitor (panic and well-formedness) for the three parsers",
+    "design_ref": "DESIGN.md §4 C18",
+    "text": "Generated terms, patterns (with substitution brackets) and multi-patterns of four languages must survive print/parse unchanged and print exactly as an independent "
+            "printer does; mutated and random texts must never make a parser panic, and whatever is accepted must be well formed and stable. Held on the texts explored.",
+    "note": "Trusted: the harness printer/generator; inputs are valid UTF-8 (the API takes &str).",
+}
